@@ -174,6 +174,11 @@ def cases(tier, seed):
     for e in exprs:
         for ci, c in enumerate(contexts):
             yield {"kind": "inference", "files": [("infer.pn", pre + c.replace("%s", e) + "}\n")], "cell": "`%s` in context %d" % (e, ci)}
+    # 13. every value type of nesting depth <= 3 in every declaration position (C11 judges the verdicts; here only the exit state)
+    for ws, base, text in c11.enum_types(3 if not quick else 2) + [t for t in c11.enum_types(3) if quick and len(t[0]) == 3 and t[1] != "void"]:
+        for pos, fmt in c11.POSITIONS.items():
+            yield {"kind": "types", "files": [("types.pn", c11.ENUM_PRE + (fmt % text) + "\n\nfn main() -> i32\n{\n\treturn: 0\n}\n")],
+                   "cell": "`%s` as %s" % (text, pos)}
     # 11. dependency graphs of constants and structures in random declaration order, half of them with a cycle of length 1-5
     for i in range(2000 if quick else 40000):
         g_rng = common.rng_for(seed, PROP, "depgraph", i)
